@@ -131,7 +131,9 @@ def run(repo: Repo, chk: Check):
     if len(rel) != 1:
         raise AnalysisError(f"assign_colors: expected one release test, found {len(rel)}")
     test = rel[0].test
-    ub = compare_upper_bound(test, True)
+    from ..cfg import decompose
+    atoms_ = decompose(test, True)
+    ub = compare_upper_bound(atoms_[0][0], atoms_[0][1]) if len(atoms_) == 1 else None
     names = sorted(ub[0]) if ub else []
     ok_rel = ub is not None and len(ub[0]) == 2 and sorted(ub[0].values()) == [-1, 1] and ub[1] <= 0
     chk.judge("R04.c", "register_assignment:assign_colors:release implies disjoint intervals", ok_rel,
